@@ -31,7 +31,7 @@ TRUSTED = [
 ]
 HARNESS_TIMEOUT = {"quick": 600, "thorough": 3600}
 
-_KIND = {"top": "KTop", "call": "(KCall false)", "nested": "(KCall true)", "static": "KStatic",
+_KIND = {"top": "KTop", "tx": "KTop", "call": "(KCall false)", "nested": "(KCall true)", "static": "KStatic",
          "delegate": "KDelegate", "callcode": "KCallCode"}
 _PC = ["PFunToken", "PWasm", "POracle"]
 _CLASS = {"ok": "Ok", "err": "Err", "oog": "OutOfGas", "panic": "Panic"}
@@ -78,7 +78,7 @@ def to_coq_case(rec):
         unpack = "(Some [%s])" % "; ".join(_arg(a) for a in o["args"])
     inp = "{| i_len := (%d)%%Z; i_head := %s; i_unpack := %s |}" % (len(data), _bytes(data[:4]), unpack)
     pc = _PC[i["pc"] if 0 <= i["pc"] <= 2 else 0]
-    value = int(i["value"]) if i["kind"] in ("top", "call", "callcode") else 0
+    value = int(i["value"]) if i["kind"] in ("top", "tx", "call", "callcode") else 0
     return ("{| c_reached := %s; c_pc := %s; c_kind := %s; c_value := %s; c_gas := %s; c_inp := %s; "
             "o_class := %s; o_left := %s; o_state_eq := %s; o_core_eq := %s; o_oog_panic := %s |}") % (
         _b(o["reached"]), pc, _KIND.get(i["kind"], "KTop"), _z(value), _z(o["fwd"]), inp,
